@@ -2,7 +2,7 @@
     Byte-exact codec theorems; the hash function (xxh3) is a parameter: every statement holds
     for EVERY hash function. *)
 From LsmV Require Import Model.Tree Proofs.Newest Proofs.Lookup.
-From LsmV Require Model.DataBlock Proofs.DataBlock Model.Bloom Proofs.Bloom Model.Ints Proofs.Ints.
+From LsmV Require Model.DataBlock Proofs.DataBlock Model.Bloom Proofs.Bloom Model.Ints Proofs.Ints Model.BlockIndex Proofs.BlockIndex Model.Range.
 Module DB := LsmV.Model.DataBlock.
 Module DBP := LsmV.Proofs.DataBlock.
 Module BL := LsmV.Model.Bloom.
@@ -90,3 +90,59 @@ Theorem C12_table_get : forall flt t k S, table_ok t = true ->
   table_get flt t k S = newest k S (ents t).
 Proof. exact table_get_newest. Qed.
 Print Assumptions C12_table_get.
+
+(** (10) The layer between a data block and a table: a table file is a sequence of data blocks
+    plus a block index (full, volatile or two-level/partitioned). [BI.btable_get],
+    [BI.btable_range_pulls] and [BI.btable_scan] transliterate Table::get + point_read
+    (saturating seqno translation, the seqnos.0 early exit, the index seek with the handle's
+    seqno, the `end_key > key` stop rule), table/iter.rs (double-ended, bound seeks on every
+    block) and table/scanner.rs. For EVERY way of cutting a sorted item list into non-empty
+    blocks - in particular when the versions of one user key straddle block boundaries - and
+    every partition of the index handles into non-empty chunks, all three index kinds give:
+    point read = newest visible version; ranged iteration under every next/next_back
+    interleaving = the deque over the items within the bounds; scanner = all items, each with
+    the table's global seqno added. *)
+Module BI := LsmV.Model.BlockIndex.
+Module BIP := LsmV.Proofs.BlockIndex.
+Theorem C12_every_cut_is_exact :
+  forall (id g : N) (items : list entry) (blocks : list (list entry)) (chunks : list (list BI.bhandle)),
+    sorted_b items = true -> BIP.seq_bound g items -> items <> [] ->
+    concat blocks = items -> Forall (fun b : list entry => b <> []) blocks ->
+    concat chunks = BI.index_of blocks -> Forall (fun c : list BI.bhandle => c <> []) chunks ->
+    forall bt : BI.btable,
+      In bt [BI.mk_btable_full id g blocks; BI.mk_btable_volatile id g blocks; BI.mk_btable_two_level id g blocks chunks] ->
+      (forall (flt : N -> key -> bool) (k : key) (S : N),
+         (forall e : entry, In e items -> flt id (ukey e) = true) ->
+         BI.btable_get flt bt k S = newest k S (map (BI.bump g) items)) /\
+      (forall (lo hi : bound) (code : list bool),
+         BIP.range_valid_for (BI.bt_index bt) lo hi ->
+         BI.btable_range_pulls bt lo hi code =
+         BIP.dq_run code (filter (fun e : entry => in_bounds lo hi (ukey e)) (map (BI.bump g) items))) /\
+      BI.btable_scan bt = map (BI.bump g) items.
+Proof. exact BIP.every_cut_is_exact. Qed.
+Print Assumptions C12_every_cut_is_exact.
+
+(** the decidable validator run on the block structure dumped from every real table implies the
+    hypotheses of the theorems above (the real index = the index the model's writer registers) *)
+Theorem C12_btable_check_ok : forall bt : BI.btable, BI.btable_check bt = true -> BIP.btable_wf bt.
+Proof. exact BIP.btable_check_ok. Qed.
+Print Assumptions C12_btable_check_ok.
+
+Theorem C12_btable_get_newest :
+  forall (flt : N -> key -> bool) (bt : BI.btable) (k : key) (S : N),
+    BIP.btable_wf bt -> BI.bt_blocks bt <> [] -> BI.bt_slo bt = min_seq (concat (BI.bt_blocks bt)) ->
+    (forall e : entry, In e (BIP.flat_ents bt) -> flt (BI.bt_id bt) (ukey e) = true) ->
+    BI.btable_get flt bt k S = newest k S (BIP.flat_ents bt).
+Proof. exact BIP.btable_get_newest. Qed.
+Print Assumptions C12_btable_get_newest.
+
+(** sharpness of the seqno bound: an item stored with seqno u64::MAX is lost by a lower-bounded
+    range (seek_lower(key, u64::MAX) against `s >= seqno`); harmless, no snapshot can see it *)
+Theorem C12_range_u64_max_refuted :
+  exists (bt : BI.btable) (lo hi : bound),
+    Forall (fun b : list entry => b <> []) (BI.bt_blocks bt) /\
+    sorted_b (concat (BI.bt_blocks bt)) = true /\
+    BIP.bindex_wf (BI.bt_index bt) (BI.index_of (BI.bt_blocks bt)) /\
+    BI.bt_gseq bt = 0 /\ BI.btable_range bt lo hi <> Range.table_range (BIP.flat_of bt) lo hi.
+Proof. exact BIP.Ex.btable_range_flat_refuted_u64_max. Qed.
+Print Assumptions C12_range_u64_max_refuted.
